@@ -8,6 +8,11 @@
    copy and the same rules must report a violation.  Nothing of the repository is executed.  A change that no longer
    applies to the current tree is skipped and listed; a change that is not reported makes the check fail as broken
    (exit 3, no VIOLATION line: it says nothing about /repo).
+3. Negative control: the behaviour-preserving refactorings in selftest/neutral/*.diff (reordered operands and match arms,
+   let-bindings, `match` rewritten as if-let chains, helper functions extracted in the decoder, the interpreter, the
+   redeem-data constructor, the value comparison and the pruning finaliser; the unedited suite passes with each) are
+   applied to scratch copies the same way and the rules must stay silent.  A report on one of them is a false alarm of
+   the checker: exit 3.
 """
 import json
 import os
@@ -87,6 +92,41 @@ def expected_mutants(pid):
         return []
     with open(p) as f:
         return json.load(f).get(pid, [])
+
+
+def run_neutral(pid, rep):
+    import glob
+    results = []
+    ok = True
+    for patch in sorted(glob.glob(os.path.join(VERIF, "selftest", "neutral", "*.diff"))):
+        name = "neutral/" + os.path.basename(patch)
+        scratch = tempfile.mkdtemp(prefix="simp-selftest-")
+        try:
+            subprocess.run(["rsync", "-a", "--exclude", "/target", "--exclude", "/.git", "--exclude", "/fuzz/target",
+                            REPO.rstrip("/") + "/", scratch + "/"], check=True)
+            a = subprocess.run(["git", "apply", "--whitespace=nowarn", patch], cwd=scratch, stdout=subprocess.PIPE, stderr=subprocess.STDOUT, text=True)
+            if a.returncode != 0:
+                results.append({"refactoring": name, "status": "skipped: no longer applies to the current tree"})
+                continue
+            env = dict(os.environ, SIMP_REPO=scratch, VERIF_SELFTEST="1")
+            r = subprocess.run([os.path.join(VERIF, "check"), pid, "--tier", "quick"], env=env, cwd=VERIF,
+                               stdout=subprocess.PIPE, stderr=subprocess.STDOUT, text=True)
+            hits = re.findall(r"SELFTEST-VIOLATION (\S+) (.*?) -- ", r.stdout)
+            if hits:
+                results.append({"refactoring": name, "status": "FALSE ALARM", "rules": sorted({h[0] for h in hits}), "instances": [h[1] for h in hits][:4]})
+                ok = False
+            elif "== selftest" not in r.stdout:
+                results.append({"refactoring": name, "status": "checker error", "tail": r.stdout[-400:]})
+                ok = False
+            else:
+                results.append({"refactoring": name, "status": "silent"})
+        finally:
+            shutil.rmtree(scratch, ignore_errors=True)
+    rep.extra = getattr(rep, "extra", None) or {}
+    rep.extra["selftest_neutral_refactorings"] = results
+    for res in results:
+        print("   selftest %s: %s %s" % (res["refactoring"], res["status"], ",".join(res.get("rules", []))))
+    return ok
 
 
 def run_selftest(pid, rep):
